@@ -170,7 +170,7 @@ def negative_activations(ctx):
     cov = ctx.cov
     for i in range(ctx.scale(60, 1200)):
         r = gen.rng_for(ctx.seed, "C08-neg", i)
-        host = ["bare", "FusionART", "FusionART", "SimpleARTMAP"][i % 4]
+        host = ["bare", "FusionART", "FusionART", "SimpleARTMAP", "DualVigilanceART", "TopoART"][i % 6]
         k = r.randint(1, 2) if host == "FusionART" else 1
         chans = [r.choice(["HypersphereART", "EllipsoidART"]) for _ in range(k)]
         ds = [r.randint(1, 3) for _ in range(k)]
@@ -190,6 +190,10 @@ def negative_activations(ctx):
         elif host == "FusionART":
             spec = {"cls": "FusionART", "modules": sp, "gamma_values": [1.0] if k == 1 else r.choice([[0.5, 0.5], [0.25, 0.75]]),
                     "channel_dims": ds}
+        elif host == "DualVigilanceART":
+            spec = {"cls": "DualVigilanceART", "base_module": sp[0], "rho_lower_bound": r.choice([0.125, 0.25])}
+        elif host == "TopoART":
+            spec = {"cls": "TopoART", "base_module": sp[0], "beta_lower": sp[0]["beta"] / 2, "tau": 1000, "phi": 1}
         else:
             spec = {"cls": "SimpleARTMAP", "module_a": sp[0]}
         rep = {"spec": spec, "X": Xtr.tolist(), "query": Xq.tolist()}
@@ -201,15 +205,19 @@ def negative_activations(ctx):
                 else:
                     est.fit(Xtr)
                 p = np.asarray(est.predict_ab(Xq)[0] if host == "SimpleARTMAP" else est.predict(Xq))
-                owner = est.module_a if host == "SimpleARTMAP" else est
+                owner = est.module_a if host == "SimpleARTMAP" else (est.base_module if host in ("DualVigilanceART", "TopoART") else est)
                 allneg = 0
                 for j, x in enumerate(Xq):
                     T = [float(owner.category_choice(x, w, params=owner.params)[0]) for w in owner.W]
                     if max(T) < 0:
                         allneg += 1
-                    if int(p[j]) != int(np.argmax(T)):
+                    want_ = int(np.argmax(T))
+                    if host == "DualVigilanceART":
+                        want_ = int(est.map[want_])
+                    if int(p[j]) != want_:
                         ctx.issue("violation", f"{host}({'+'.join(chans)}).predict:not-first-argmax",
-                                  f"row {j}: predicted {int(p[j])}, activations {T}", rep)
+                                  f"row {j}: predicted {int(p[j])}, expected {want_} (arg-max of the activations {T}"
+                                  f"{', through the cluster map' if host == 'DualVigilanceART' else ''})", rep)
                         break
             cov.hit("all-activations-negative" if allneg else "some-activation-nonnegative")
             cov.case(("neg", spec, rep["X"], rep["query"]), allneg > 0 and len(owner.W) >= 2)
